@@ -107,6 +107,8 @@ pub fn judge(script: &Script, obs: &Observation) -> CaseResult {
         }
         let is_empty_vec = matches!(req, Req::TypedVec(t) if t.is_empty());
         let delivered = extent.get(&i).copied();
+        // bytes behind an injected malformed line never reach the parser as a reply
+        let delivered = delivered.filter(|(start, _)| obs.garbage_at.is_none_or(|(gs, _)| *start < gs));
         match delivered {
             // E2: reply completely received
             Some((_, end)) if end <= pos => {
@@ -298,6 +300,7 @@ pub fn property(_tier: Tier) -> Property {
                 }),
             }),
             offsets_part(),
+            crate::fuzzops::corpus_part("fuzz_corpus", "fz_sim", "C08", crate::fuzzops::sim_target),
         ],
         assumptions: vec![
             "as C01; 'never resolves' means: not within one virtual hour after the script's end with a paused clock",
